@@ -18,9 +18,10 @@ use std::sync::{Arc, Barrier, Mutex};
 pub const SIZES: [usize; 12] = [0, 1, 2, 100, 1000, 1006, 1007, 1008, 1009, 1010, 4096, 70_000];
 
 fn pick_encoder(rng: &mut Rng) -> (Box<dyn Encode>, bool, String) {
-    match rng.below(4) {
+    match rng.below(5) {
         0 => (Box::new(PatternEncoder::new("{m}{n}")), false, "PatternEncoder({m}{n})".into()),
         1 => (Box::new(ChunkEnc { pieces: 1 }), true, "ChunkEnc(1)".into()),
+        2 => (Box::new(ChunkEnc { pieces: 0 }), true, "ChunkEnc(5 bytes + rest)".into()),
         _ => {
             let k = 2 + rng.usize_below(49);
             (Box::new(ChunkEnc { pieces: k }), true, format!("ChunkEnc({})", k))
@@ -85,12 +86,15 @@ fn single_history(rep: &mut Report, rng: &mut Rng, idx: u64) {
     }
     let n = 1 + rng.usize_below(25);
     let mut sizes = vec![];
+    // record terminator style: newline / none / newline followed by more text (verbatim encoders only)
+    let wid: u32 = if nl { *rng.pick(&[1u32, 1, 301, 601]) } else { 1 };
+    rep.observe("record_terminator_styles", &format!("{}", wid / 300));
     for seq in 0..n as u32 {
         let len = if rng.chance(3, 4) { *rng.pick(&SIZES[..]) } else { rng.usize_below(3000) };
         // a 70 KiB record only now and then
         let len = if len == 70_000 && !rng.chance(1, 4) { 1008 } else { len };
         sizes.push(len);
-        let a = append_frame(&app, 1, seq, len, nl);
+        let a = append_frame(&app, wid, seq, len, nl);
         if let Some(p) = take_panic() {
             rep.violation("C04:panic:append", json!({"case": desc, "panic": p}));
             return;
@@ -99,7 +103,7 @@ fn single_history(rep: &mut Report, rng: &mut Rng, idx: u64) {
             rep.violation("C04:append-failed", json!({"case": desc, "seq": seq}));
             return;
         }
-        expect.extend(frame(1, seq, len));
+        expect.extend(frame(wid, seq, len));
         rep.count("appends_observed_after_return", 1);
         // an independent reader must see the complete record as soon as append returned
         let got = std::fs::read(&path).unwrap_or_default();
@@ -143,6 +147,55 @@ fn single_history(rep: &mut Report, rng: &mut Rng, idx: u64) {
     if idx < 2 {
         rep.sample(json!({"kind": "single-threaded history", "case": desc, "record_payload_sizes": sizes}));
     }
+}
+
+/// Two live appenders on the same path (e.g. two generations of a configuration), used one after the
+/// other: every acknowledged record must stay readable, in the order of the calls.
+fn two_appenders(rep: &mut Report, rng: &mut Rng, idx: u64) {
+    let sc = Scratch::new("c04t");
+    let path = sc.join("shared.log");
+    let mut expect: Vec<u8> = vec![];
+    if rng.chance(1, 2) {
+        expect.extend(frame(900, 0, 30));
+        std::fs::write(&path, &expect).unwrap();
+    }
+    let mk = || FileAppender::builder().encoder(Box::new(ChunkEnc { pieces: 1 })).build(&path);
+    let (a, b) = match (mk(), mk()) {
+        (Ok(a), Ok(b)) => (a, b),
+        _ => {
+            rep.inconclusive("cannot build two appenders on one path");
+            return;
+        }
+    };
+    let steps = 3 + rng.usize_below(12);
+    let mut order = String::new();
+    for seq in 0..steps as u32 {
+        let use_a = rng.chance(1, 2);
+        order.push(if use_a { 'a' } else { 'b' });
+        let len = *rng.pick(&[0usize, 10, 100, 1100]);
+        let tid = if use_a { 1 } else { 2 };
+        let ack = append_frame(if use_a { &a } else { &b }, tid, seq, len, true);
+        if let Some(p) = take_panic() {
+            rep.violation("C04:panic:append", json!({"case": "two appenders on one path", "panic": p}));
+            return;
+        }
+        if !ack.ok {
+            rep.violation("C04:append-failed", json!({"case": "two appenders on one path"}));
+            return;
+        }
+        expect.extend(frame(tid, seq, len));
+        let got = std::fs::read(&path).unwrap_or_default();
+        rep.count("appends_observed_after_return", 1);
+        if got != expect {
+            rep.violation("C04:two-appenders-on-one-path:acknowledged-record-overwritten-or-misplaced",
+                json!({"call_order": order, "file_len": got.len(), "expected_len": expect.len(),
+                       "file_tail": show_bytes(&got[got.len().saturating_sub(100)..]),
+                       "expected_tail": show_bytes(&expect[expect.len().saturating_sub(100)..])}));
+            return;
+        }
+    }
+    rep.case(&format!("two|{}|{}", order, idx), true);
+    rep.count("two_appender_histories", 1);
 }
 
 fn concurrent_run(rep: &mut Report, rng: &mut Rng, idx: u64, heavy: bool) {
@@ -246,6 +299,7 @@ pub fn run(rep: &mut Report) {
     rep.assume("the file is judged only after an append returned (single-threaded) or for the caller's own record (concurrent); a record larger than the 1 KiB buffer is legitimately written in several write(2) calls");
     let thorough = rep.tier == "thorough";
     run_cases(rep, "single", if thorough { 6000 } else { 1500 }, single_history);
+    run_cases(rep, "two", if thorough { 2000 } else { 300 }, two_appenders);
     // concurrent runs use many threads themselves: run them a few at a time
     let n = if thorough { 300 } else { 60 };
     let saved = std::env::var("L4V_JOBS").ok();
@@ -259,6 +313,7 @@ pub fn run(rep: &mut Report) {
         crate::miri::run_miri_seeds(rep, "C04", 48);
         rep.require(rep.counter("miri_seeds_run") >= 48 / 2, "fewer than half of the Miri seeds produced a result");
     }
+    rep.require(rep.set_size("record_terminator_styles") == 3, "not all record terminator styles were exercised");
     rep.require(rep.counter("appends_observed_after_return") > 500, "fewer than 500 appends observed after return");
     rep.require(rep.counter("adjacent_cross_thread_pairs") > 100, "concurrent runs did not actually interleave threads");
     rep.require(rep.set_size("thread_order_signatures") >= 5, "fewer than 5 distinct thread orders observed");
